@@ -196,6 +196,22 @@ impl ProgGen {
             items.push(Item::Const { dots: 0, name: c.clone(), e, noemit: false });
         }
 
+        // v2: a constant whose value is a conditional with a decided condition; the arm that is taken may read a
+        // label declared later (so the constant is NOT known before addresses are), the other arm is a literal
+        if crate::engine::gen_version() >= 2 && !names.globals.is_empty() && t.chance(1, 5) {
+            let g = E::Var(t.pick(&names.globals).clone());
+            let lbl_arm = if t.flip() { g } else { E::Bin(BinOp::Add, Box::new(g), Box::new(lit_of(t.draw(4) as u64))) };
+            let lit_arm = lit_of(t.draw(9) as u64);
+            let (av, bv) = (1 + t.draw(3) as u64, t.draw(3) as u64);
+            // the condition av > bv is decided by its literals; pick which arm is taken
+            let cond = E::Bin(BinOp::Gt, Box::new(lit_of(av)), Box::new(lit_of(bv)));
+            let taken_is_label = t.chance(3, 4);
+            let truth = av > bv;
+            let e = if truth == taken_is_label { E::Tern(Box::new(cond), Box::new(lbl_arm), Box::new(lit_arm)) } else { E::Tern(Box::new(cond), Box::new(lit_arm), Box::new(lbl_arm)) };
+            names.consts.push("kt".to_string());
+            items.push(Item::Const { dots: 0, name: "kt".to_string(), e, noemit: false });
+        }
+
         // banks
         let mut banks: Vec<BankDef> = Vec::new();
         if self.allow_banks && t.chance(2, 5) {
@@ -290,6 +306,13 @@ impl ProgGen {
                             est_bits += unit.max(8);
                         }
                         items.push(Item::Label { dots: 1, name: l.clone() });
+                        if crate::engine::gen_version() >= 2 && t.chance(1, 3) {
+                            // v2: a third nesting level (same address), sometimes a fourth
+                            items.push(Item::Label { dots: 2, name: "dd".to_string() });
+                            if t.chance(1, 3) {
+                                items.push(Item::Label { dots: 3, name: "ee".to_string() });
+                            }
+                        }
                         used_locals.push((p, l));
                         info.nested_labels = true;
                         continue;
